@@ -33,6 +33,36 @@ def split_edit(prev_lines, st):
     return [st1, st2]
 
 
+def gen_tail_human(seed):
+    """Base histories in which every round ends with two or three consecutive edits by a person in the
+    files the agents touched (no checkpoint in between), so that an inserted human checkpoint is followed
+    by further unreported edits before the commit."""
+    rng = S.Rng(seed ^ 0x7A11)
+    w = S.World()
+    names = ["t1.txt", "src/t2.rs"][: 1 + rng.below(2)]
+    steps = []
+    for n in names:
+        w.files[n] = [w.fresh(S.gen_text(rng, w, "plain"), None) for _ in range(3 + rng.below(5))]
+        steps.append({"op": "edit", "who": "human", "path": n, "lines": [list(l) for l in w.files[n]]})
+    steps.append({"op": "commit", "msg": "base"})
+    sessions = ["s1", "s2"][: 1 + rng.below(2)]
+    for rd in range(1 + rng.below(2)):
+        touched = []
+        for _ in range(1 + rng.below(3)):
+            who = rng.pick(sessions)
+            path = rng.pick(names)
+            steps.append({"op": "human_checkpoint", "paths": [path]})
+            kind = S.gen_edit(rng, w, path, who, "plain")
+            steps.append({"op": "edit", "who": who, "path": path, "kind": kind, "lines": [list(l) for l in w.files[path]]})
+            touched.append(path)
+        for _ in range(2 + rng.below(2)):
+            path = rng.pick(touched)
+            kind = S.gen_edit(rng, w, path, "human", "plain")
+            steps.append({"op": "edit", "who": "human", "path": path, "kind": kind, "lines": [list(l) for l in w.files[path]]})
+        steps.append({"op": "commit", "msg": f"round {rd}"})
+    return {"seed": seed, "style": "tail-human", "file_opts": {}, "steps": steps}
+
+
 def refine(sc, seed, k):
     """Insert k redundancies of random kinds into a copy of scenario sc."""
     rng = S.Rng(seed ^ 0xC14)
@@ -123,8 +153,8 @@ def run_pair(args, _attempt=0):
 
 def phase(res, seeds, nvar, k, threads=16):
     jobs = []
-    for s in seeds:
-        sc = c01.gen_scenario(s)
+    for n_, s in enumerate(seeds):
+        sc = c01.gen_scenario(s) if n_ % 2 == 0 else gen_tail_human(s)
         jobs.append((sc, [refine(sc, s * 31 + j, 1 + (j % k)) for j in range(nvar)]))
     with concurrent.futures.ThreadPoolExecutor(threads) as ex:
         outs = list(ex.map(run_pair, jobs))
@@ -134,7 +164,7 @@ def phase(res, seeds, nvar, k, threads=16):
                 res.oracle_failure("runner-exception", base, what="runner exception")
                 continue
             res.count_case(json.dumps(v["steps"], ensure_ascii=False), nontrivial=bool(v["refinements"]))
-            res.tag([f"refine={r}" for r in set(v["refinements"])] + [f"commits={base['ncommits']}"])
+            res.tag([f"refine={r}" for r in set(v["refinements"])] + [f"commits={base['ncommits']}", f"base={sc.get('style')}"])
             res.sample({"seed": sc["seed"], "refinements": v["refinements"]}, cap=3)
             if base != got:
                 kinds = "+".join(sorted(set(v["refinements"])))
@@ -147,7 +177,7 @@ def phase(res, seeds, nvar, k, threads=16):
 
 def run(tier, seed):
     res = C.Result(PROP, tier, seed)
-    res.rule = ("end-to-end metamorphic: each generated base history (C01 generator) is replayed with 1-4 inserted redundancies "
+    res.rule = ("end-to-end metamorphic: each generated base history (C01 generator, and histories whose rounds end with consecutive unreported edits by a person in agent-touched files) is replayed with 1-4 inserted redundancies "
                 "(extra human checkpoint after a human edit, repeated checkpoint, agent edit split into two checkpoints of the "
                 "same session, read-only git command); canonical notes per commit and blame must be equal; non-trivial = at "
                 "least one redundancy inserted; distinct = distinct refined step list")
@@ -160,7 +190,7 @@ def run(tier, seed):
     if os.path.exists(os.path.join(C.LEAN, "GitAiModel", "Props", "C14.lean")):
         C.phase_proofs(res, PROP, THEOREMS)
     if tier == "quick":
-        phase(res, [seed * 100000 + i for i in range(30)], 3, 3)
+        phase(res, [seed * 100000 + i for i in range(48)], 3, 3)
     else:
         phase(res, [seed * 100000 + i for i in range(500)], 6, 4)
     if res.broken and not res.violations:
